@@ -10,7 +10,8 @@ PROPS = {}
 
 def dyn_prop(pid, **kw):
     PROPS[pid] = dict(module=check_dyn, sizes=DYN_SIZES, coq_sample={"quick": 24, "thorough": 200},
-                      search_rounds={"quick": 3, "thorough": 10}, **kw)
+                      search_rounds={"quick": 3, "thorough": 10},
+                      explore={"quick": (10, 250), "thorough": (120, 3000)}, **kw)
 
 
 dyn_prop("C01", resync_fields={"state", "success", "flags"})
@@ -39,3 +40,12 @@ import check_load
 for _pid in ("C17", "C18"):
     PROPS[_pid] = dict(module=check_load, sizes={"quick": (12, 1), "thorough": (150, 4)},
                        coq_sample={"quick": 3, "thorough": 10})
+
+import check_hops
+
+PROPS["C20"] = dict(module=check_hops, sizes={"quick": (60, 40), "thorough": (1500, 800)})
+
+import check_multi
+
+PROPS["C19"] = dict(module=check_multi, sizes={"quick": (40, (8, 40)), "thorough": (800, (8, 120))},
+                    coq_sample={"quick": 4, "thorough": 20})
